@@ -392,7 +392,7 @@ func TestVerifC15(t *testing.T) {
 	rapid.Check(t, func(rt *rapid.T) {
 		c := genC15(rt)
 		v, inc := runC15(c)
-		if inc {
+		if inc || (v != nil && transportNoise(v.Message)) {
 			col.Inconclusive()
 			return
 		}
